@@ -29,6 +29,9 @@ pub enum Mutation {
     /// pw' = pw || filler, longer than the 65535-byte encodable limit: must not log in
     /// (any error; the invalid-login kind is only required for encodable passwords)
     ExtendBeyondLimit { extra: u16, seed: u64 },
+    /// pw' = a digest of pw (0: SHA-256, 1: SHA-384, 2: SHA-512): catches "long inputs are
+    /// pre-hashed" shortcuts that make a password and its digest equivalent
+    DigestOf(u8),
 }
 
 impl Mutation {
@@ -50,6 +53,7 @@ impl Mutation {
             Mutation::PrependOne(_) => "prepend-byte",
             Mutation::Unrelated(_) => "unrelated",
             Mutation::ExtendBeyondLimit { .. } => "extension-beyond-65535",
+            Mutation::DigestOf(_) => "digest-of-password",
         }
     }
     /// produce pw' != pw; falls back to appending a NUL when the mutation does
@@ -141,6 +145,15 @@ impl Mutation {
                 v
             }
             Mutation::Unrelated(b) => b.bytes(),
+            Mutation::DigestOf(a) => {
+                use crate::refmodel::{hash, HashAlg};
+                let alg = match a % 3 {
+                    0 => HashAlg::Sha256,
+                    1 => HashAlg::Sha384,
+                    _ => HashAlg::Sha512,
+                };
+                hash(alg, &[pw])
+            }
             Mutation::ExtendBeyondLimit { extra, seed } => {
                 let mut v = pw.to_vec();
                 let need = 65536usize.saturating_sub(pw.len()) + (*extra as usize % 300);
@@ -183,6 +196,7 @@ pub fn mutation() -> BoxedStrategy<Mutation> {
         1 => prop::sample::select(vec![0u8, b' ']).prop_map(Mutation::PrependOne),
         3 => gen::bytes_param().prop_map(Mutation::Unrelated),
         2 => (any::<u16>(), any::<u64>()).prop_map(|(extra, seed)| Mutation::ExtendBeyondLimit { extra, seed }),
+        3 => (0u8..3).prop_map(Mutation::DigestOf),
     ]
     .boxed()
 }
